@@ -36,8 +36,8 @@ ASSUMPTIONS = [
     'zero with a length unit may lose the unit (stated by the property)',
 ]
 MIN_EVENTS = {
-    'quick': {'oracle.number': 40000, 'oracle.hash': 20000, 'oracle.color': 2000, 'oracle.string': 3000, 'contract.do_css_Value': 40000, 'contract._hash': 10000},
-    'thorough': {'oracle.number': 800000, 'oracle.hash': 300000, 'oracle.color': 30000, 'oracle.string': 60000, 'contract.do_css_Value': 800000, 'contract._hash': 100000},
+    'quick': {'oracle.reassign': 300, 'oracle.number': 40000, 'oracle.hash': 20000, 'oracle.color': 2000, 'oracle.string': 3000, 'contract.do_css_Value': 40000, 'contract._hash': 10000},
+    'thorough': {'oracle.reassign': 300, 'oracle.number': 800000, 'oracle.hash': 300000, 'oracle.color': 30000, 'oracle.string': 60000, 'contract.do_css_Value': 800000, 'contract._hash': 100000},
 }
 
 UNITS = ['', '%', 'px', 'em', 'ex', 'cm', 'mm', 'in', 'pt', 'pc', 'deg', 's', 'ms', 'Hz', 'PX', 'x']
@@ -515,11 +515,50 @@ def stream_lists(ctx, cssutils):
         ctx.seen('L' + src)
 
 
+REASSIGN = ['18px', '50%', '1.5', '0', '-2em', '+3', '#abc', 'red', 'rgb(1, 2, 3)', 'url(a.png)', '"s"', 'auto', 'calc(1px + 2px)', '0.5em', '100', '10.50%', 'hsl(120, 50%, 50%)', 'url("b c.png")']
+
+
+def value_view(v):
+    out = [type(v).__name__]
+    for attr in ('cssText', 'value', 'type', 'dimension', 'uri', 'colorType', 'red', 'green', 'blue', 'alpha'):
+        try:
+            out.append(repr(getattr(v, attr, None)))
+        except Exception as e:
+            out.append('EXC ' + type(e).__name__)
+    return out
+
+
+def stream_reassign(ctx, cssutils):
+    """a value object whose text is set again denotes what a fresh object made from that text denotes (nothing of the old value stays)"""
+    pairs = [(a, b) for a in REASSIGN for b in REASSIGN if a != b]
+    for i, (first, second) in ctx.share(pairs):
+        case = {'kind': 'reassign', 'first': first, 'second': second}
+        ctx.count('oracle.reassign')
+        ctx.count('evaluations')
+        try:
+            core.canonical_state(cssutils, raising=False)
+            v = cssutils.parseString('a{x:%s}' % first).cssRules[0].style.getProperty('x').propertyValue[0]
+            fresh = cssutils.parseString('a{x:%s}' % second).cssRules[0].style.getProperty('x').propertyValue[0]
+            if type(v) is not type(fresh):
+                core.canonical_state(cssutils)
+                continue  # a value object accepts texts of its own kind only
+            v.cssText = second
+            got, want = value_view(v), value_view(fresh)
+            core.canonical_state(cssutils)
+            if got != want:
+                ctx.violation('value.reassign', case, {'after_reassignment': got, 'fresh_object': want})
+            ctx.seen(['re', type(v).__name__, first, second])
+        except Exception as e:
+            ctx.violation('value.exception', case, {'tb': core.short_tb(e)}, site=core.raise_site(e))
+    core.canonical_state(cssutils)
+
+
 def run_worker(ctx):
     cssutils, _ = core.import_repo()
     core.canonical_state(cssutils)
     con = Contracts(ctx, cssutils)
     try:
+        stream_reassign(ctx, cssutils)
         stream_numbers(ctx, cssutils)
         stream_hashes(ctx, cssutils)
         stream_colors(ctx, cssutils)
@@ -530,6 +569,21 @@ def run_worker(ctx):
 
 
 def replay(ctx, case):
+    if case.get('kind') == 'reassign':
+        cssutils, _ = core.import_repo()
+        core.canonical_state(cssutils, raising=False)
+        v = cssutils.parseString('a{x:%s}' % case['first']).cssRules[0].style.getProperty('x').propertyValue[0]
+        fresh = cssutils.parseString('a{x:%s}' % case['second']).cssRules[0].style.getProperty('x').propertyValue[0]
+        v.cssText = case['second']
+        got, want = value_view(v), value_view(fresh)
+        core.canonical_state(cssutils)
+        if got != want:
+            ctx.violation('value.reassign', case, {'after_reassignment': got, 'fresh_object': want})
+        return
+    _replay_other(ctx, case)
+
+
+def _replay_other(ctx, case):
     cssutils, _ = core.import_repo()
     core.canonical_state(cssutils)
     kind = case.get('kind')
